@@ -80,3 +80,5 @@ func genChars(p *pkgInfo) *leanFile {
 	}
 	return f
 }
+
+func init() { registerGen("Chars", genChars) }
